@@ -133,7 +133,7 @@ func runHistory(t *testing.T, seed int64, blocks int) (string, map[string]int, s
 func TestHistAll(t *testing.T) {
 	out := newOut(t, "hist_all")
 	defer out.Close()
-	n := count(40, 1500)
+	n := count(80, 1500)
 	blocks := 25
 	if thorough() {
 		blocks = 50
